@@ -50,6 +50,11 @@ def idx(e, i):
     return ['idx', e, i]
 
 
+def idx2(e, i, d):
+    """mapping[key, default]"""
+    return ['idx2', e, i, d]
+
+
 def bn(op, l, r):
     return ['bin', op, l, r]
 
@@ -123,6 +128,8 @@ def render(e):
         return '{' + ', '.join('%s => %s' % (render(a), render(b)) for a, b in e[1]) + '}'
     if k == 'idx':
         return '%s[%s]' % (render(e[1]), render(e[2]))
+    if k == 'idx2':
+        return '%s[%s, %s]' % (render(e[1]), render(e[2]), render(e[3]))
     if k == 'bin':
         return '(%s %s %s)' % (render(e[2]), e[1], render(e[3]))
     if k == 'un':
@@ -155,6 +162,8 @@ def tla_ast(e):
         return ['map', [[tla_ast(a), tla_ast(b)] for a, b in e[1]]]
     if k == 'idx':
         return ['idx', tla_ast(e[1]), tla_ast(e[2])]
+    if k == 'idx2':
+        return ['idx2', tla_ast(e[1]), tla_ast(e[2]), tla_ast(e[3])]
     if k == 'bin':
         return ['bin', e[1], tla_ast(e[2]), tla_ast(e[3])]
     if k == 'un':
